@@ -5761,6 +5761,7 @@ def _sub_repl_path_Constant(paths: _PathsList, str_tags: _StrTagsList, repl: fst
     if isinstance(value, (str, bytes)):
         lines = repl._lines
         ln, col, end_ln, end_col = fst_.loc
+        kind = 'b' if isinstance(value, bytes) else 'f' if (parent := fst_.parent) and parent.a.__class__ in ASTS_LEAF_FTSTR and getattr(parent.pfield, 'name', None) != 'format_spec' else ''  # bytes cannot hold non-ASCII source, f/t-string literal parts need their curlies doubled
         cur_end_col = 0x7fffffffffffffff
 
         while ln <= end_ln:
@@ -5772,7 +5773,7 @@ def _sub_repl_path_Constant(paths: _PathsList, str_tags: _StrTagsList, repl: fst
             while m := _re_FST_tag_full.search(l, col, cur_end_col):
                 start, col = m.span()
 
-                str_tags.append((m.group()[6:], None, (ln, start, col), True))
+                str_tags.append((m.group()[6:], None, (ln, start, col, kind), True))
 
             col = 0
             ln += 1
@@ -6863,7 +6864,7 @@ def subn(
                                      f', got {repl_slot_new.__class__.__qualname__}')
 
                 if child is True:  # this is a slot inside a string so we just replace it with escaped source of matched element
-                    ln, col, end_col = path  # path is really these three coordinates
+                    ln, col, end_col, kind = path  # path is really these three coordinates and the kind of string
 
                     if not isinstance(repl_slot_new, fst.FST):  # is None or a string
                         src = repl_slot_new
@@ -6872,11 +6873,16 @@ def subn(
                         src = ''.join(
                             f'\\{c}'
                             if c in '"\'\\' else
+                            ''.join(f'\\x{b:02x}' for b in c.encode())
+                            if kind == 'b' and c >= '\x80' else  # bytes hold the utf-8 encoding of non-ASCII source
                             c.encode('unicode_escape').decode('ascii')
                             if not c.isprintable() else
                             c
                             for c in repl_slot_new.src
                         )
+
+                        if kind == 'f':
+                            src = src.replace('{', '{{').replace('}', '}}')
 
                     repl_._put_src(src, ln, col, ln, end_col, True)
 
